@@ -239,8 +239,8 @@ def poles (order : Nat) : List Float :=
 def poleWeight (ps : List Float) : Float :=
   ps.foldl (fun w p => w * ((1.0 - p) * (1.0 - 1.0 / p))) 1.0
 
-/-- number of terms after which the causal initialisation sum is cut (`log_tolerance = -16`) -/
-def cutLen (p : Float) : Int := (Float.ceil (-16.0 / Float.log (Float.abs p))).toInt64.toInt
+/-- number of terms after which the causal initialisation sum is cut (`log_tolerance = log(1e-15)`) -/
+def cutLen (p : Float) : Int := (Float.ceil (Float.log 1e-15 / Float.log (Float.abs p))).toInt64.toInt
 
 /-- one line of `spline_filter1d` (`len ≥ 2`) -/
 def filterLine (order : Nat) (line0 : Array Float) : Array Float := Id.run do
@@ -275,7 +275,7 @@ def filterLine (order : Nat) (line0 : Array Float) : Array Float := Id.run do
   return line
 
 /-- was the initialisation sum cut short on a line of this length? (then the coefficients reproduce
-    the samples only to about `e^-16`) -/
+    the samples to about `1e-15` relative instead of to rounding) -/
 def truncated (order len : Nat) : Bool :=
   len > 1 && (poles order).any fun p => cutLen p < (len : Int)
 
